@@ -50,7 +50,7 @@ func c06Paths() []string {
 	out = append(out, "/a:x/b", "/a/c:d/b", "/c:d", "/c:d/b", "/a/c:d", "/a/c:d:v", "/a/b/c:d", "/c/x:y/z/w", "/a/c:d/b:v", "/a:v/b:v", "/x:y/b", "/a/x:y", "/a/b:v/c", "/a/x:v/b")
 	// bytes that Go's URL type does not regard as validly encoded in a path (it then re-encodes
 	// the DECODED path in EscapedPath): raw '|', '^', '"' and raw UTF-8, next to an escaped slash
-	out = append(out, "/a/x%2Fy|z", "/a/x%2Fy|z/b", "/x%2Fy|z", "/a/b|c", "/a/é%2Fb", "/a/é%2Fb/b", "/a/x%2Fy^", "/a/x%2Fy\"q", "/a/b/x%2Fy|z", "/c/x%2Fy|z/b/c", "/a/x%2Fy|z:v")
+	out = append(out, "/a/x%2Fy|z", "/a/x%2Fy|z/b", "/x%2Fy|z", "/a/b|c", "/a/é%2Fb", "/a/é%2Fb/b", "/a/x%2Fy^", "/a/x%2Fy\"q", "/a/b/x%2Fy|z", "/c/x%2Fy|z/b/c", "/a/x%2Fy|z:v", "/%61/b", "/a/%62", "/%61", "/a/b%3av", "/a/b:%76")
 	return out
 }
 
